@@ -42,6 +42,11 @@ Proof. exact twins_agree. Qed.
 Theorem c17_gn_lints_perm : forall v d', Permutation (gv_ian_dns v) d' -> all_gn_lints (with_ian_dns v d') = all_gn_lints v.
 Proof. exact gn_lints_perm. Qed.
 
+(* ... and the six raw-GeneralNames walkers: the verdict depends on the members as a set *)
+Theorem c17_raw_lints_perm : forall v san' ian', Permutation (rv_san v) san' -> Permutation (rv_ian v) ian' ->
+  all_raw_lints (mkRview (rv_san_ext v) san' (rv_ian_ext v) ian') = all_raw_lints v.
+Proof. exact raw_lints_perm. Qed.
+
 Print Assumptions c17_first_offender_perm.
 Print Assumptions c17_label_lints_perm.
 Print Assumptions c17_na_first_refuted.
@@ -57,3 +62,4 @@ Example c17_names_example :
   all_name_lints (with_dns v (rev (nv_dns v))) = all_name_lints v.
 Proof. split; vm_compute; reflexivity. Qed.
 Print Assumptions c17_gn_lints_perm.
+Print Assumptions c17_raw_lints_perm.
